@@ -50,7 +50,7 @@ func main() {
 				return nil
 			}
 			src, err := os.ReadFile(path)
-			if err != nil || !(bytes.Contains(src, []byte("Lock()")) || bytes.Contains(src, []byte("go func"))) {
+			if err != nil || !(bytes.Contains(src, []byte("Lock()")) || bytes.Contains(src, []byte("go func")) || bytes.Contains(src, []byte("select {")) || bytes.Contains(src, []byte("<-"))) {
 				return nil
 			}
 			if rewritten, n := rewrite(rel, src); n > 0 {
@@ -158,6 +158,13 @@ func rewrite(rel string, src []byte) ([]byte, int) {
 				}}
 				out = append(out, gate)
 				n++
+			}
+			switch s.(type) {
+			case *ast.SelectStmt, *ast.SendStmt:
+				if !hooked {
+					out = append(out, yield("chan", s.Pos()))
+					n++
+				}
 			}
 			out = append(out, s)
 			if unlockCall(s) && !(i+1 < len(list) && isHookCall(list[i+1])) {
